@@ -1,9 +1,541 @@
-// C03: not built yet (stub so that main.rs is already wired; replace the body, keep the two signatures).
-use crate::util::Sink;
+// C03: PWB chunk integrity — case generation and implementation observations.
+//   c3chunk <hex>   Chunk::try_from(&[u8]) + all accessors
+//   c3crc <hex>     !crc32c::crc32c(bytes)  (the crate the decoder calls) vs the model's bitwise CRC
+use crate::util::*;
+use alpha_g_detector::padwing::{AfterId, BoardId, Chunk};
 
-pub fn run(_tier: &str, _seed: u64, _s: &mut Sink) {}
+pub fn after_num(a: AfterId) -> u8 {
+    match a {
+        AfterId::A => 0,
+        AfterId::B => 1,
+        AfterId::C => 2,
+        AfterId::D => 3,
+    }
+}
+
+pub fn observe(bytes: &[u8]) -> String {
+    let b = bytes.to_vec();
+    match catch(move || {
+        Chunk::try_from(&b[..]).map(|c| {
+            let n = b.len();
+            format!(
+                "ok {} {} {} {} {} {} {} {} {} {} {}",
+                c.board_id().device_id(),
+                after_num(c.after_id()),
+                c.packet_sequence(),
+                c.channel_sequence(),
+                c.chunk_id(),
+                c.is_end_of_message() as u8,
+                c.header_crc32c(),
+                c.payload_crc32c(),
+                u32::from_le_bytes(b[16..20].try_into().unwrap()),
+                u32::from_le_bytes(b[n - 4..].try_into().unwrap()),
+                hex(c.payload())
+            )
+        })
+    }) {
+        None => "panic".to_string(),
+        Some(Err(_)) => "err".to_string(),
+        Some(Ok(s)) => s,
+    }
+}
+
+/// device ids of all boards of PADWING_BOARDS (the table is private: enumerate the two-character names)
+pub fn devices() -> Vec<u32> {
+    let mut v = Vec::new();
+    for a in b'0'..=b'9' {
+        for b in b'0'..=b'9' {
+            let name = format!("{}{}", a as char, b as char);
+            if let Ok(id) = BoardId::try_from(name.as_str()) {
+                v.push(id.device_id());
+            }
+        }
+    }
+    v
+}
+
+#[derive(Clone)]
+pub struct Fields {
+    pub dev: u32,
+    pub pseq: u32,
+    pub cseq: u16,
+    pub chan: u8,
+    pub flags: u8,
+    pub id: u16,
+    pub clen: u16, // declared chunk_length
+    pub body: Vec<u8>, // payload followed by padding, as laid out
+}
+pub fn inv_crc(b: &[u8]) -> u32 {
+    !crc32c::crc32c(b)
+}
+impl Fields {
+    pub fn header(&self) -> Vec<u8> {
+        let mut h = Vec::with_capacity(16);
+        h.extend(self.dev.to_le_bytes());
+        h.extend(self.pseq.to_le_bytes());
+        h.extend(self.cseq.to_le_bytes());
+        h.push(self.chan);
+        h.push(self.flags);
+        h.extend(self.id.to_le_bytes());
+        h.extend(self.clen.to_le_bytes());
+        h
+    }
+    /// bytes with both CRC words computed correctly over whatever the fields are
+    pub fn bytes(&self) -> Vec<u8> {
+        let h = self.header();
+        let mut v = h.clone();
+        v.extend(inv_crc(&h).to_le_bytes());
+        v.extend(&self.body);
+        v.extend(inv_crc(&self.body).to_le_bytes());
+        v
+    }
+}
+pub fn pad_of(n: usize) -> usize {
+    (4 - n % 4) % 4
+}
+/// a well-formed chunk with the given payload
+pub fn valid_with(r: &mut Rng, devs: &[u32], payload: Vec<u8>) -> Fields {
+    let n = payload.len();
+    let mut body = payload;
+    body.resize(n + pad_of(n), 0);
+    Fields {
+        dev: r.pick(devs),
+        pseq: r.boundary(u32::MAX as u64) as u32,
+        cseq: r.boundary(u16::MAX as u64) as u16,
+        chan: r.below(4) as u8,
+        flags: r.below(2) as u8,
+        id: r.boundary(u16::MAX as u64) as u16,
+        clen: n as u16,
+        body,
+    }
+}
+pub fn valid(r: &mut Rng, devs: &[u32], n: usize) -> Fields {
+    let p = match r.below(4) {
+        0 => vec![0u8; n],
+        1 => vec![0xFFu8; n],
+        _ => r.bytes(n),
+    };
+    valid_with(r, devs, p)
+}
+
+fn emit(s: &mut Sink, label: &str, bytes: &[u8]) {
+    let o = observe(bytes);
+    let nontrivial = bytes.len() >= 28 && bytes.len() % 4 == 0;
+    s.put(&format!("c3chunk {}", hex(bytes)), &o, label, nontrivial);
+}
+fn emit_crc(s: &mut Sink, label: &str, bytes: &[u8]) {
+    s.put(&format!("c3crc {}", hex(bytes)), &format!("crc {}", inv_crc(bytes)), label, true);
+}
+fn flip(b: &[u8], bits: &[usize]) -> Vec<u8> {
+    let mut q = b.to_vec();
+    for &k in bits {
+        q[k / 8] ^= 1 << (k % 8);
+    }
+    q
+}
+/// values with every single bit set, and the neighbours, below 2^w
+fn bit_values(w: u32) -> Vec<u64> {
+    let mut v = vec![0u64, 1, 2];
+    for k in 0..w {
+        let x = 1u64 << k;
+        for y in [x.wrapping_sub(1), x, x + 1] {
+            if y < (1u64 << w) {
+                v.push(y);
+            }
+        }
+    }
+    v.push((1u64 << w) - 1);
+    v.push((1u64 << w) - 2);
+    v.push(1u64 << (w - 1) | 1u64 << (w / 2));
+    v.sort();
+    v.dedup();
+    v
+}
+
+/// flipped variants of an accepted chunk: singles, pairs/triples, bursts
+fn corruptions(s: &mut Sink, r: &mut Rng, b: &[u8], all_singles: bool, n_multi: usize, burst_offsets: usize, sparse: bool) {
+    let nbits = b.len() * 8;
+    let n = b.len();
+    // single-bit flips
+    if all_singles {
+        for k in 0..nbits {
+            emit(s, "flip1", &flip(b, &[k]));
+        }
+    } else {
+        // all header / header CRC bits, last payload word (padding) and payload CRC bits; strided payload
+        let mut ks: Vec<usize> = if sparse { (0..160).step_by(9).collect() } else { (0..160).collect() };
+        ks.extend(((n - 8) * 8..nbits).step_by(if sparse { 3 } else { 1 }));
+        let stride = (nbits / if sparse { 6 } else { 24 }).max(1);
+        ks.extend((160..nbits).step_by(stride));
+        for _ in 0..8 {
+            ks.push(r.range(160, nbits as u64 - 1) as usize);
+        }
+        for k in ks {
+            emit(s, "flip1-large", &flip(b, &[k]));
+        }
+    }
+    // pairs and triples: biased to the same 32-bit word, header x payload, data x its CRC word
+    for _ in 0..n_multi {
+        let a = r.below(nbits as u64) as usize;
+        let pick_near = |r: &mut Rng, a: usize| -> usize {
+            let w = a / 32 * 32;
+            w + r.below(32) as usize
+        };
+        let second = match r.below(6) {
+            0 | 1 => pick_near(r, a),
+            2 => r.below(160) as usize,                                // header codeword
+            3 => 160 + r.below((nbits - 160) as u64) as usize,        // payload codeword
+            4 => nbits - 32 + r.below(32) as usize,                    // payload CRC word
+            _ => r.below(nbits as u64) as usize,
+        };
+        if second != a {
+            emit(s, "flip2", &flip(b, &[a, second]));
+            let third = match r.below(4) {
+                0 => pick_near(r, second),
+                1 => 128 + r.below(32) as usize, // header CRC word
+                _ => r.below(nbits as u64) as usize,
+            };
+            if third != a && third != second {
+                emit(s, "flip3", &flip(b, &[a, second, third]));
+            }
+        }
+    }
+    // bursts: every length 1..=32 (first and last bit of the window flipped, random in between),
+    // serial order (LSB first within bytes) and MSB-first order
+    for len in 1..=32usize {
+        for j in 0..burst_offsets {
+            let max_off = nbits - len;
+            let off = match j {
+                0 => 0,
+                1 => max_off,
+                2 => 160 - len.min(160) / 2, // straddles header CRC / payload
+                3 => 128 - len / 2,             // straddles header / header CRC
+                4 => nbits - 32 - len / 2,     // straddles body / payload CRC
+                _ => r.below(max_off as u64 + 1) as usize,
+            }
+            .min(max_off);
+            let mut ks = vec![off];
+            if len > 1 {
+                ks.push(off + len - 1);
+                for k in off + 1..off + len - 1 {
+                    if r.chance(1, 2) {
+                        ks.push(k);
+                    }
+                }
+            }
+            emit(s, "burst", &flip(b, &ks));
+            // same window counted MSB-first within bytes
+            let msb: Vec<usize> = ks.iter().map(|k| k / 8 * 8 + (7 - k % 8)).collect();
+            emit(s, "burst-msb-first", &flip(b, &msb));
+        }
+    }
+    // whole bytes / aligned words replaced
+    for _ in 0..6 {
+        let mut q = b.to_vec();
+        let i = r.below(n as u64) as usize;
+        let old = q[i];
+        q[i] = r.next() as u8;
+        if q[i] != old {
+            emit(s, "byte-change", &q);
+        }
+        let mut q = b.to_vec();
+        let w = r.below(n as u64 / 4) as usize * 4;
+        let x = r.bytes(4);
+        if q[w..w + 4] != x[..] {
+            q[w..w + 4].copy_from_slice(&x);
+            emit(s, "word-change", &q);
+        }
+    }
+}
+
+pub fn run(tier: &str, seed: u64, s: &mut Sink) {
+    let mut r = Rng::new(seed ^ 0xC03);
+    let thorough = tier == "thorough";
+    let devs = devices();
+    // documentation chunk
+    let doc: [u8; 28] = [
+        236, 40, 255, 135, 2, 0, 0, 0, 3, 0, 0, 1, 5, 0, 1, 0, 143, 203, 131, 81, 255, 0, 0, 0, 122, 92, 155, 159,
+    ];
+    emit(s, "doc", &doc);
+
+    // ---- CRC crate vs bitwise model
+    emit_crc(s, "crc-check-string", b"123456789");
+    for n in 0..=40usize {
+        emit_crc(s, "crc-zeros", &vec![0u8; n]);
+        emit_crc(s, "crc-ones", &vec![0xFFu8; n]);
+    }
+    let n_crc = if thorough { 3000 } else { 300 };
+    for _ in 0..n_crc {
+        let n = r.below(200) as usize;
+        emit_crc(s, "crc-random", &r.bytes(n));
+    }
+    for n in [1024usize, 4096, 65536] {
+        emit_crc(s, "crc-long", &r.bytes(n));
+    }
+    for k in 0..64usize {
+        // single set bit: the impulse response of the register
+        let mut v = vec![0u8; 8];
+        v[k / 8] = 1 << (k % 8);
+        emit_crc(s, "crc-impulse", &v);
+    }
+
+    // ---- valid chunks: every payload length class, every device, chip, flag
+    let mut lens: Vec<usize> = (1..=64).collect();
+    lens.extend(1021..=1027);
+    if thorough {
+        lens.extend(65532..=65535);
+    } else {
+        lens.push(65535);
+    }
+    for &n in &lens {
+        let f = valid(&mut r, &devs, n);
+        emit(s, "valid", &f.bytes());
+    }
+    for (i, &d) in devs.iter().enumerate() {
+        let mut f = valid(&mut r, &devs, 1 + i % 9);
+        f.dev = d;
+        f.chan = (i % 4) as u8;
+        f.flags = (i / 4 % 2) as u8;
+        emit(s, "valid-device", &f.bytes());
+        // neighbours of every known id, byte-swapped id
+        for d2 in [d.wrapping_add(1), d.wrapping_sub(1), d.swap_bytes(), d ^ 0x8000_0000] {
+            f.dev = d2;
+            emit(s, "device-near", &f.bytes());
+        }
+    }
+
+    // ---- every header field at boundary values and with every single bit set (CRCs recomputed)
+    let n_base = if thorough { 12 } else { 2 };
+    for bi in 0..n_base {
+        let base = valid(&mut r, &devs, [5usize, 8, 1, 30, 64, 3, 2, 4, 7, 33, 12, 63][bi % 12]);
+        for v in bit_values(32) {
+            let mut f = base.clone();
+            f.dev = v as u32;
+            emit(s, "field-device", &f.bytes());
+            let mut f = base.clone();
+            f.pseq = v as u32;
+            emit(s, "field-packet-seq", &f.bytes());
+        }
+        for v in bit_values(16) {
+            let mut f = base.clone();
+            f.cseq = v as u16;
+            emit(s, "field-channel-seq", &f.bytes());
+            let mut f = base.clone();
+            f.id = v as u16;
+            emit(s, "field-chunk-id", &f.bytes());
+            // declared length alone changed (body unchanged): only the window value is accepted
+            let mut f = base.clone();
+            f.clen = v as u16;
+            emit(s, "field-length-only", &f.bytes());
+        }
+        for v in 0..=255u8 {
+            let mut f = base.clone();
+            f.chan = v;
+            emit(s, "field-chip", &f.bytes());
+            let mut f = base.clone();
+            f.flags = v;
+            emit(s, "field-flags", &f.bytes());
+        }
+    }
+    // accepted chunks whose length field has every single bit set (2^k, 2^k +- 1): needs large chunks
+    for k in 0..16u32 {
+        let x = 1usize << k;
+        for n in [x - 1, x, x + 1] {
+            if n >= 1 && n <= 65535 && (thorough || k < 14 || n == x) {
+                let f = valid(&mut r, &devs, n);
+                emit(s, "length-bits-accepted", &f.bytes());
+            }
+        }
+    }
+
+    // ---- chunk_length window: declared N with exactly N-4 .. N+7 bytes between header CRC and payload CRC
+    for &n in &[1usize, 2, 3, 4, 5, 6, 7, 8, 9, 31, 32, 33, 63, 64, 65, 1023, 1024, 1025] {
+        for region in n.saturating_sub(4)..=n + 7 {
+            for fill in 0..3 {
+                // fill 0: payload random, rest zero; 1: everything nonzero; 2: everything zero
+                let mut body = match fill {
+                    0 => {
+                        let mut p = r.bytes(n.min(region));
+                        for x in p.iter_mut() {
+                            *x |= 1;
+                        }
+                        p.resize(region, 0);
+                        p
+                    }
+                    1 => vec![0xA5u8; region],
+                    _ => vec![0u8; region],
+                };
+                body.truncate(region);
+                let mut f = valid(&mut r, &devs, 1);
+                f.clen = n as u16;
+                f.body = body;
+                emit(s, "length-window", &f.bytes());
+            }
+        }
+    }
+    // declared length around len-28..len-23 for fixed slices
+    for total in [28usize, 32, 36, 40, 64, 1052] {
+        for fill in 0..2 {
+            let region = total - 24;
+            let body = if fill == 0 { vec![0u8; region] } else { r.bytes(region).iter().map(|x| x | 1).collect() };
+            for d in 22..=30i64 {
+                let clen = total as i64 - d;
+                if (0..=65535).contains(&clen) {
+                    let mut f = valid(&mut r, &devs, 1);
+                    f.clen = clen as u16;
+                    f.body = body.clone();
+                    emit(s, "length-window-slice", &f.bytes());
+                }
+            }
+        }
+    }
+    // the u16 cannot express a length that fits a slice longer than 65535+3+24: 65564, 65568
+    for total in [65560usize, 65564, 65568] {
+        let region = total - 24;
+        for clen in [65535u16, 65534, 65533, 65532, 0] {
+            let mut f = valid(&mut r, &devs, 1);
+            f.clen = clen;
+            f.body = vec![0u8; region];
+            emit(s, "length-window-max", &f.bytes());
+        }
+    }
+
+    // ---- padding bytes nonzero (payload CRC recomputed, and not)
+    for n in [1usize, 2, 3, 5, 6, 7, 61, 62, 63] {
+        let base = valid(&mut r, &devs, n);
+        for p in n..n + pad_of(n) {
+            for v in [1u8, 0x80, 0xFF] {
+                let mut f = base.clone();
+                f.body[p] = v;
+                emit(s, "padding-nonzero", &f.bytes());
+                let mut q = base.bytes();
+                q[20 + p] = v;
+                emit(s, "padding-nonzero-crc-stale", &q);
+            }
+        }
+    }
+
+    // ---- truncation / extension
+    for n in [1usize, 4, 6, 17] {
+        let b = valid(&mut r, &devs, n).bytes();
+        for len in 0..=b.len() + 9 {
+            let mut q = b.clone();
+            q.resize(len, 0);
+            emit(s, "length-cut-or-extend", &q);
+        }
+        let mut q = b.clone();
+        q.extend(r.bytes(4));
+        emit(s, "extend-random", &q);
+        // two valid chunks back to back, a chunk inside the payload of a chunk
+        let b2 = valid(&mut r, &devs, 3).bytes();
+        let mut q = b.clone();
+        q.extend(&b2);
+        emit(s, "two-chunks", &q);
+        let mut q = b2.clone();
+        q.extend(&b);
+        emit(s, "two-chunks", &q);
+        let f = valid_with(&mut r, &devs, b.clone());
+        emit(s, "chunk-in-payload", &f.bytes());
+    }
+    for len in (0..=64usize).chain([65556, 65560, 65564]) {
+        emit(s, "random-bytes", &r.bytes(len));
+        // random body behind a valid device id
+        let mut q = r.bytes(len);
+        if len >= 4 {
+            q[..4].copy_from_slice(&r.pick(&devs).to_le_bytes());
+        }
+        emit(s, "random-bytes-known-device", &q);
+    }
+
+    // ---- wrong CRC conventions
+    for n in [1usize, 4, 7, 32] {
+        let f = valid(&mut r, &devs, n);
+        let good = f.bytes();
+        let h = f.header();
+        let len = good.len();
+        let variants: Vec<(usize, u32)> = vec![
+            (16, crc32c::crc32c(&h)),                          // not inverted
+            (16, inv_crc(&h).swap_bytes()),                    // big-endian
+            (16, inv_crc(&good[..20])),                        // over 20 bytes
+            (16, inv_crc(&h[..12])),                           // over 12 bytes
+            (16, 0),
+            (16, u32::MAX),
+            (16, inv_crc(&f.body)),                            // swapped with payload CRC
+            (len - 4, crc32c::crc32c(&f.body)),
+            (len - 4, inv_crc(&f.body).swap_bytes()),
+            (len - 4, inv_crc(&f.body[..n])),                  // padding excluded
+            (len - 4, inv_crc(&good[16..len - 4])),            // header CRC word included
+            (len - 4, inv_crc(&good[..len - 4])),              // whole chunk
+            (len - 4, inv_crc(&f.body[..f.body.len() - 1])),   // range one byte short
+            (len - 4, inv_crc(&h)),
+            (len - 4, 0),
+            (len - 4, u32::MAX),
+        ];
+        for (at, w) in variants {
+            let mut q = good.clone();
+            q[at..at + 4].copy_from_slice(&w.to_le_bytes());
+            emit(s, "crc-convention", &q);
+        }
+    }
+
+    // ---- the two 32-bit MSB-first "bursts" that are multiples of the generator (C03_chunk_burst32_msb_first_refuted):
+    // documented witnesses, accepted by model and implementation alike when they fall inside one codeword
+    for n in [5usize, 8, 23, 64] {
+        let base = valid(&mut r, &devs, n).bytes();
+        for pat in [[0x62u8, 0x95, 0xe3, 0xfd, 0x80], [0x01, 0x03, 0x83, 0x6b, 0xf2]] {
+            for off in [16usize, 18, 20, 20 + n - 5, base.len() - 5, base.len() - 7] {
+                let mut q = base.clone();
+                for (i, p) in pat.iter().enumerate() {
+                    q[off + i] ^= p;
+                }
+                emit(s, "burst-msb-first-generator-multiple", &q);
+            }
+        }
+    }
+
+    // ---- corruptions of accepted chunks
+    let small: Vec<usize> = if thorough { (1..=64).chain([100, 255, 256]).collect() } else { vec![1, 2, 3, 4, 5, 8, 13, 32] };
+    for (i, &n) in small.iter().enumerate() {
+        let b = valid(&mut r, &devs, n).bytes();
+        emit(s, "valid", &b);
+        let all = thorough || i < 5;
+        corruptions(s, &mut r, &b, all, if thorough { 300 } else { 60 }, if thorough { 12 } else { 6 }, false);
+    }
+    // every burst length at every offset of one small chunk
+    {
+        let b = valid(&mut r, &devs, 6).bytes();
+        let nbits = b.len() * 8;
+        for len in 1..=32usize {
+            let step = if thorough { 1 } else { 5 };
+            for off in (0..=nbits - len).step_by(step) {
+                let mut ks = vec![off];
+                if len > 1 {
+                    ks.push(off + len - 1);
+                }
+                for k in off + 1..(off + len).saturating_sub(1) {
+                    if r.chance(1, 2) {
+                        ks.push(k);
+                    }
+                }
+                emit(s, "burst-every-offset", &flip(&b, &ks));
+            }
+        }
+    }
+    let large: Vec<usize> = if thorough { vec![1021, 1024, 4099, 65533, 65535] } else { vec![1022, 65535] };
+    for &n in &large {
+        let b = valid(&mut r, &devs, n).bytes();
+        emit(s, "valid", &b);
+        let (m, bo) = if n > 5000 { (if thorough { 20 } else { 3 }, 0) } else { (40, 1) };
+        corruptions(s, &mut r, &b, false, m, bo, n > 5000 && !thorough);
+    }
+}
 
 /// implementation observation for a case line of this module (None: not one of mine)
-pub fn observe_line(_line: &str) -> Option<String> {
-    None
+pub fn observe_line(line: &str) -> Option<String> {
+    let (tag, rest) = line.split_once(' ').unwrap_or((line, "-"));
+    match tag {
+        "c3chunk" => Some(observe(&unhex(rest))),
+        "c3crc" => Some(format!("crc {}", inv_crc(&unhex(rest)))),
+        _ => None,
+    }
 }
